@@ -1343,7 +1343,8 @@ int EGLPNUM_TYPENAME_ILLlib_addrow (
 			EGLPNUM_TYPENAME_EGlpNumZero (qslp->rangeval[nrows]);
 	}
 	ILL_FAILtrue (qslp->rownames == NULL, "must always be non NULL");
-	EGLPNUM_TYPENAME_ILLlib_findName (qslp, 1 /*row */ , name, nrows, buf);
+	rval = EGLPNUM_TYPENAME_ILLlib_findName (qslp, 1 /*row */ , name, nrows, buf);
+	CHECKRVALG (rval, CLEANUP);		/* name already in use: nothing allocated yet */
 	ILL_UTIL_STR (qslp->rownames[nrows], buf);
 	ILLsymboltab_register (&qslp->rowtab, buf, qslp->nrows, &pind, &hit);
 	ILL_FAILfalse (hit == 0, "must be new");
